@@ -80,9 +80,13 @@ valid non-decreasing distances whose laps (sessions) are well-formed and follow 
 no lap (session) keeps a start/end position that belongs to an instant outside the revealed window, unless it was
 replaced by the coordinates of the first / last revealed record (`noLeakB`, FitModel/ActivitySpec.lean).
 FALSE on the pinned tree: see the witness below (KF-C20-1 = design finding F17; a second defect, KF-C20-2, was
-repaired in /repo by commit bd79ab7). -/
+repaired in /repo by commit bd79ab7). What is proved: the two stages separately, in seconds (`C20_conceal_lap_session_start_partial`
+under the hypothesis that excludes F17, `C20_conceal_lap_session_end`, `…_none_revealed`); what is missing for the full
+statement outside the F17 class: their composition into `noLeakB` (the anchor coordinates are those of the revealed record,
+the overlap cases). The predicate itself is evaluated on the implementation on every run. -/
 def C20_conceal_lap_session_full : Prop :=
   ∀ (ph : PH) (first last : Nat) (ms : List Message), (ph = lapPH ∨ ph = sesPH) → DistOK ms → lapsSeqB ph ms = true →
+    (∀ m ∈ ms, isRecord m = true → UniqueNum fnRecordPositionLat m ∧ UniqueNum fnRecordPositionLong m) →
     noLeakB ph first last ms (conceal first last ms) = true
 
 /-- the design witness of F17: 10 records 100 m and 10 s apart, lap 1 = the first 3 records, lap 2 = the other 7,
@@ -113,6 +117,37 @@ record; lap 1 used to keep all its positions — with the fixed `updateEndPositi
 theorem C20_conceal_lap_session_allend_fixed :
     distOKB f17Witness = true ∧ lapsSeqB lapPH f17Witness = true ∧ allConcealedAtEnd 200000 f17Witness = true ∧
     noLeakB lapPH 0 200000 f17Witness (conceal 0 200000 f17Witness) = true := by decide +kernel
+
+/-- **Start stage, in seconds** (`_partial`: the hypothesis `hu` excludes the class of KF-C20-1 = F17). If the laps
+(sessions) follow each other in time (`lapsSeqP`) and on each of them the code's test `start_time + total_timer_time <
+T` — seconds plus raw milliseconds — agrees with the test in seconds `start_time + total_timer_time/1000 < T`
+(T = timestamp of the first revealed record), then `updateStartPosition` does what concealing demands: a lap lying
+entirely before T loses all four positions; the first lap reaching T gets the record's position as start position;
+every later lap is left alone and starts at or after T. For any number of laps and any other messages in between. -/
+theorem C20_conceal_lap_session_start_partial (ph : PH) (r : RecInfo) (ms : List Message)
+    (hseq : lapsSeqP ph 0 ms)
+    (hu : ∀ m ∈ ms, (m.num == ph.mesgNum) = true → endsBefore ph r m = decide (lapEndTime ph m < r.ts)) :
+    Rel2 (StartStageOK ph r) ms (updStart ph r ms) := by
+  rw [updStart_eq_walk]
+  exact startWalk_ok ph r ms true 0 hseq (fun h => by cases h) hu
+
+/-- **End stage** (no unit problem: it compares start times only; the list is walked backwards, `rs` is the reversed
+message list). With a last revealed record (timestamp T): a lap starting after T loses all four positions; the last lap
+starting at or before T gets the record's position as end position (and loses its start position when the two
+stretches overlap); every earlier lap is left alone and ends at or before T. -/
+theorem C20_conceal_lap_session_end (ph : PH) (r : RecInfo) (ov : Bool) (hr : r.absent = false) (rs : List Message) (hi : Nat)
+    (hseq : lapsSeqRevP ph hi rs)
+    (hv : ∀ m ∈ rs, (m.num == ph.mesgNum) = true → lapStartTime ph m ≠ uint32Invalid) :
+    Rel2 (EndStageOK ph r ov) rs (updEndRev ph r ov rs) := by
+  rw [updEndRev_eq_walk]
+  exact endWalk_ok ph r ov hr rs true hi hseq (fun h => by cases h) hv
+
+/-- **End stage with no record left revealed** (the situation of KF-C20-2, fixed by /repo commit bd79ab7): every lap
+and session loses all four positions. -/
+theorem C20_conceal_lap_session_none_revealed (ph : PH) (r : RecInfo) (ov : Bool) (hr : r.absent = true) (rs : List Message) :
+    Rel2 (fun m m' => (m.num == ph.mesgNum) = true → m' = strip4 ph m) rs (updEndRev ph r ov rs) := by
+  rw [updEndRev_eq_walk]
+  exact endWalk_absent ph r ov hr rs
 
 /-! ## remover -/
 
